@@ -2154,7 +2154,7 @@ class BSP:
             for face in faces:
                 if face.orig_face is not None and get_orig_face is not None:
                     orig_ind = get_orig_face(face.orig_face)
-                    hammer_ids.append(face.hammer_id or 0)  # Dummy value if not set.
+                    hammer_ids.append(face.hammer_id)
                 else:
                     orig_ind = -1
                 if face.texinfo is not None:
@@ -2190,8 +2190,14 @@ class BSP:
                 ))
             # Only rebuild the ID lump if some face actually has an ID. Many maps have an empty FACEIDS
             # lump, don't replace that with a block of dummy zeros just because the faces were parsed.
-            if hammer_ids and any(face.hammer_id is not None for face in faces):
-                self.lumps[BSP_LUMPS.FACEIDS].data = write_array(self.lump_layout['FACEID'], hammer_ids)
+            # Faces beyond the end of a short FACEIDS lump were read with no ID, don't invent zeros for those either.
+            while hammer_ids and hammer_ids[-1] is None:
+                hammer_ids.pop()
+            if hammer_ids:
+                self.lumps[BSP_LUMPS.FACEIDS].data = write_array(
+                    self.lump_layout['FACEID'],
+                    [ident or 0 for ident in hammer_ids],  # Dummy value if not set.
+                )
         return face_buf.getvalue()
 
     def _lmp_read_orig_faces(self, data: bytes) -> Iterator['Face']:
